@@ -694,3 +694,44 @@ func sourcesThroughClosure(v ssa.Value) []ssa.Value {
 	}
 	return out
 }
+
+// sourcesViaParams is core.Sources extended one level up through parameters: a source that is a
+// parameter of fn - an unexported function all of whose call sites are known - is replaced by the
+// sources of the corresponding argument at every call site (the arguments themselves are returned
+// as well, for rules that look at a conversion made at the call site).
+func sourcesViaParams(w *core.World, fn *ssa.Function, v ssa.Value) (srcs []ssa.Value, args []ssa.Value) {
+	for _, s := range core.Sources(v) {
+		p, ok := s.(*ssa.Parameter)
+		if !ok || p.Parent() != fn {
+			srcs = append(srcs, s)
+			continue
+		}
+		sites, escapes := staticCallSites(w, fn)
+		pi := paramIndex(p)
+		if escapes || len(sites) == 0 || pi < 0 {
+			srcs = append(srcs, s)
+			continue
+		}
+		for _, c := range sites {
+			a := core.CallArgs(c)
+			if pi >= len(a) {
+				srcs = append(srcs, s)
+				continue
+			}
+			args = append(args, a[pi])
+			srcs = append(srcs, core.Sources(a[pi])...)
+		}
+	}
+	return srcs, args
+}
+
+// fromResultVia is fromResult that also looks through one level of parameters (sourcesViaParams).
+func fromResultVia(w *core.World, fn *ssa.Function, v ssa.Value, idx int, names ...string) bool {
+	srcs, _ := sourcesViaParams(w, fn, v)
+	for _, s := range srcs {
+		if c, i, ok := core.ExtractOf(s); ok && i == idx && core.IsCallTo(c, names...) {
+			return true
+		}
+	}
+	return false
+}
